@@ -2,6 +2,7 @@ package proxyrig
 
 import (
 	"context"
+	"crypto/tls"
 	"database/sql"
 	"errors"
 	"fmt"
@@ -122,7 +123,13 @@ type MyClient struct {
 }
 
 // DialMy opens one session (one pinned connection). maxPacket is the driver's maxAllowedPacket (0 = driver default 4 MiB).
-func DialMy(port int, maxPacket int) (*MyClient, error) {
+func DialMy(port int, maxPacket int) (*MyClient, error) { return DialMyTLS(port, maxPacket, nil) }
+
+var myTLSSeq int
+
+// DialMyTLS is DialMy with the driver's in-protocol TLS upgrade (SSL request in the handshake) using the given client
+// configuration; nil = no TLS. The recorded byte streams are then the encrypted ones.
+func DialMyTLS(port int, maxPacket int, tlsCfg *tls.Config) (*MyClient, error) {
 	registerMyDial()
 	myRecMu.Lock()
 	myRecSeq++
@@ -133,6 +140,17 @@ func DialMy(port int, maxPacket int) (*MyClient, error) {
 	dsn := fmt.Sprintf("app:pw@verifrec(%s)/db?interpolateParams=false", addr)
 	if maxPacket > 0 {
 		dsn += "&maxAllowedPacket=" + strconv.Itoa(maxPacket)
+	}
+	if tlsCfg != nil {
+		myRecMu.Lock()
+		myTLSSeq++
+		name := fmt.Sprintf("verif-tls-%d", myTLSSeq)
+		myRecMu.Unlock()
+		if err := mysql.RegisterTLSConfig(name, tlsCfg); err != nil {
+			return nil, err
+		}
+		defer mysql.DeregisterTLSConfig(name)
+		dsn += "&tls=" + name
 	}
 	db, err := sql.Open("mysql", dsn)
 	if err != nil {
